@@ -25,14 +25,25 @@ def obligations(tier):
                   bounds="paragraph with 3 children out of text / br / italic span / bold span with a br inside / underline span / plain span"))
     obs.append(ch("sami_read", "harness.C11_styles", timeout=T, functions=("SAMIReader._translate_tag", "_translate_span", "_translate_attrs", "_translate_style", "_translate_css_property"), exhaustive=True,
                   bounds="same trees with styled spans or <i>/<b>/<u> elements"))
+    RT = ("SAMIWriter._recreate_text", "SAMIParser.feed/handle_starttag/handle_endtag/handle_data", "SAMIReader.read", "_translate_lang", "_translate_tag", "_translate_span")
+    for nm in (("i4", "b4") if q else ("i4", "b4", "u5")):
+        obs.append(ch(f"sami_roundtrip_{nm}", "harness.C11_styles", timeout=T, functions=RT, exhaustive=True,
+                      bounds=f"all flat balanced sequences of {nm[1]} nodes written by the SAMI writer and read back by the real SAMIParser + SAMIReader (tree builder html.parser): same flags per character, balanced nodes"))
+    RD = ("DFXPWriter._recreate_text", "DFXPReader.read", "_translate_p_tag", "_convert_tag_to_node", "_convert_span_to_nodes")
+    for nm in (("i4",) if q else ("i4", "i6")):
+        obs.append(ch(f"dfxp_roundtrip_{nm}", "harness.C11_styles", timeout=T, functions=RD, exhaustive=True,
+                      bounds=f"all flat balanced sequences of {nm[1]} nodes written by the DFXP writer and read back by the real DFXPReader (html.parser): same italic flag per character, balanced nodes"))
+    obs.append(ch("scc_three_rows", "harness.C11_styles", timeout=T, functions=("SCCReader.read", "scc.specialized_collections._format_italics", "_close_italics_before_repositioning", "_ensure_final_italics_node_closes"), exhaustive=True,
+                  bounds="pop-on caption of three rows, each adjacent to or apart from the previous, each with a plain or an italic preamble, single/doubled: balanced style nodes, italic flags equal to the CEA-608 reference decoder's"))
     return obs
 
 
 ASSUME = [
     "finite structure choices: CrossHair walks every node sequence / tree shape, the solver certifies that no further feasible path exists",
     "reference scanner of span / <i><b><u> markup in harness/C11_styles.py; bs4 emits p.string verbatim (contract); element trees are stubs with the attributes the converters read (name, attrs, contents, layout_info)",
+    "round trips: the SAMI reader's tree builder is html.parser instead of lxml (lxml does not run under CrossHair's tracing); SAMIParser itself (pure Python) is the real one",
     "DFXP carries italics only (bold/underline are not written by the DFXP writer, as the statement allows); nested spans are outside the statement",
-    "SCC reader italics normalisation (_format_italics) is exercised by C05",
+    "SCC reader: italics normalisation over all short instruction lists is C05's format_italics obligation; here three-row pop-on captions against vlib/ref608.py",
 ]
 
 if __name__ == "__main__":
